@@ -164,6 +164,10 @@ type Case struct {
 	Calls   []Call      `json:"calls,omitempty"`
 	Oracle  []ReEntry   `json:"oracle,omitempty"`
 	Sorted  bool        `json:"sort_series,omitempty"`
+	// kind "prof": further matchers of a Series request (/querier.v1.QuerierService/Series with several matchers);
+	// members[0] is Query itself. Observations: each member's own selector statement, and the statement PlanSeries builds
+	Members   []Member `json:"members,omitempty"`
+	SeriesSQL string   `json:"series_sql,omitempty"`
 	// observations
 	SQL       string      `json:"sql,omitempty"`
 	SQLLabels string      `json:"sql_labels,omitempty"`
@@ -173,6 +177,15 @@ type Case struct {
 	ErrText   string      `json:"err_text,omitempty"`
 	// table names the planner context was populated with
 	Tables *Tables `json:"tables,omitempty"`
+}
+
+// one matcher of a multi-matcher Series request
+type Member struct {
+	Query  string     `json:"query"`
+	Sels   []Selector `json:"sels,omitempty"`
+	SQL    string     `json:"sql,omitempty"` // StreamSelectorPlanner.Process of this matcher alone
+	Oracle []ReEntry  `json:"oracle,omitempty"`
+	Err    string     `json:"err,omitempty"`
 }
 
 var opCtor = map[string]string{"=": "MEq", "!=": "MNeq", "=~": "MRe", "!~": "MNre"}
@@ -477,6 +490,73 @@ func genProfOracle(sels []Selector, pdb []PSeries) []ReEntry {
 	return res
 }
 
+// the Series request with several matchers: PlanSeries over all members (fix c94f1fe gave every member of the UNION ALL its own
+// fingerprints alias fp_0, fp_1, ..); each member's own selector statement is recorded beside it
+func runSeries(c *Case, pc *shared.PlannerContext) {
+	c.SeriesSQL = ""
+	if len(c.Members) < 2 || c.Ctx.Cluster {
+		return
+	}
+	var scripts []*profparser.Script
+	for i := range c.Members {
+		m := &c.Members[i]
+		m.Sels, m.SQL, m.Oracle, m.Err = nil, "", nil, ""
+		script, err := profparser.Parse(m.Query)
+		if err != nil {
+			m.Err = "parse"
+			return
+		}
+		for _, s := range script.Selectors {
+			v, err := s.Val.Unquote()
+			if err != nil {
+				m.Err = "unquote"
+				return
+			}
+			m.Sels = append(m.Sels, mkSelector(s.Name, s.Op, v))
+		}
+		if c.PDB != nil {
+			m.Oracle = genProfOracle(m.Sels, c.PDB)
+		}
+		var err2 error
+		if p := hx.Catch(func() {
+			var q sql.ISelect
+			q, err2 = (&proftr.StreamSelectorPlanner{Selectors: script.Selectors}).Process(pc)
+			if err2 == nil {
+				m.SQL, err2 = render(q, false)
+			}
+		}); p != "" || err2 != nil {
+			m.Err = "process"
+			return
+		}
+		scripts = append(scripts, script)
+	}
+	var err error
+	if p := hx.Catch(func() {
+		var planner shared.SQLRequestPlanner
+		planner, err = proftr.PlanSeries(scripts, nil)
+		if err != nil {
+			return
+		}
+		var q sql.ISelect
+		q, err = planner.Process(pc)
+		if err == nil {
+			c.SeriesSQL, err = render(q, false)
+		}
+	}); p != "" || err != nil {
+		c.SeriesSQL = "!error"
+	}
+}
+
+func mkSelector(name, op, v string) Selector {
+	sel := Selector{Name: name, Op: op, Val: v}
+	if mt, ok := map[string]labels.MatchType{"=": labels.MatchEqual, "!=": labels.MatchNotEqual, "=~": labels.MatchRegexp, "!~": labels.MatchNotRegexp}[op]; ok {
+		if pm, merr := labels.NewMatcher(mt, name, v); merr == nil {
+			sel.E = pm.Matches("")
+		}
+	}
+	return sel
+}
+
 func runProf(c *Case) {
 	c.SQL, c.Err, c.ErrText = "", "", ""
 	script, err := profparser.Parse(c.Query)
@@ -492,13 +572,7 @@ func runProf(c *Case) {
 			c.Err, c.ErrText = "unquote", err.Error()
 			return
 		}
-		sel := Selector{Name: s.Name, Op: s.Op, Val: v}
-		if mt, ok := map[string]labels.MatchType{"=": labels.MatchEqual, "!=": labels.MatchNotEqual, "=~": labels.MatchRegexp, "!~": labels.MatchNotRegexp}[s.Op]; ok {
-			if pm, merr := labels.NewMatcher(mt, s.Name, v); merr == nil {
-				sel.E = pm.Matches("")
-			}
-		}
-		sels = append(sels, sel)
+		sels = append(sels, mkSelector(s.Name, s.Op, v))
 	}
 	c.Sels = sels
 	if c.PDB != nil {
@@ -520,7 +594,9 @@ func runProf(c *Case) {
 	}
 	if err != nil {
 		c.Err, c.ErrText = "process", err.Error()
+		return
 	}
+	runSeries(c, pc)
 }
 
 // ---------------------------------------------------------------- kind "querier"
@@ -1009,6 +1085,14 @@ func main() {
 			_, c.Query = genProf(r)
 			c.Class = []string{"prof"}
 			c.PDB = genPDB(r, c.Ctx)
+			if rs := hx.Rand(f.Seed*7919 + int64(i)); rs.Intn(3) == 0 { // a Series request with two or three matchers
+				c.Members = []Member{{Query: c.Query}}
+				for k := 1 + rs.Intn(2); k > 0; k-- {
+					_, q := genProf(rs)
+					c.Members = append(c.Members, Member{Query: q})
+				}
+				c.Class = append(c.Class, "prof-series")
+			}
 		default:
 			c.Kind = "querier"
 			h, class := genHints(r)
